@@ -12,7 +12,7 @@ import itertools
 SIG = {
     'f': 'ss', 'g': 'ss', 'h': 'sss',
     'w': 'ssss',
-    'var': 's', 'app': 'cc', 'lam': 'bc', 'k': 'ss', 'u': 'c', 'j': 'ss', 't3': 'sss', 's3': 'sss', 'm3': 'sss', 'at': 'sc', 'ta': 'cs',
+    'var': 's', 'app': 'cc', 'lam': 'bc', 'k': 'ss', 'u': 'c', 'j': 'ss', 't3': 'sss', 's3': 'sss', 'm3': 'sss', 'at': 'sc', 'ta': 'cs', 'w4': 'ssss', 'v4': 'ssss',
     'mvar': 's', 'madd': 'cc', 'mmul': 'cc', 'msum': 'bc', 'mlet': 'bcc',
     'avar': 's', 'aadd': 'cc', 'amul': 'cc', 'alam': 'bc', 'num': 'p',        # 'p' = payload (a number, not a name)
 }
@@ -374,7 +374,7 @@ def const_closure(terms, eqs, nnames, spare=3):
             C.constval, C.const_conflict = val, conflict
             return C
 
-WEIGHTS = {'AstSize': None, 'Depth': 'depth', 'Weighted': {'var': 1, 'app': 3, 'lam': 2, 'k': 5, 'u': 1, 'j': 4, 't3': 6, 's3': 7, 'm3': 9, 'at': 2, 'ta': 2}, 'WeightedF': {'f': 3, 'g': 2, 'h': 5, 'w': 7}}
+WEIGHTS = {'AstSize': None, 'Depth': 'depth', 'Weighted': {'var': 1, 'app': 3, 'lam': 2, 'k': 5, 'u': 1, 'j': 4, 't3': 6, 's3': 7, 'm3': 9, 'at': 2, 'ta': 2, 'w4': 8, 'v4': 8}, 'WeightedF': {'f': 3, 'g': 2, 'h': 5, 'w': 7}}
 def term_cost(t, cf):
     w = 1 if WEIGHTS[cf] is None else WEIGHTS[cf][t[0]]
     return w + sum(term_cost(a, cf) for kind, a in zip(SIG[t[0]], t[1:]) if kind == 'c')
